@@ -3,6 +3,8 @@
 Decided: writer/reader agreement of the directory serialisation (entry fields,
 framing, rwcap layout, codecs), name normalisation at every store into a
 children dict, the deep-immutable refusals (DESIGN.md section 5, C19)."""
+import itertools
+
 from sa.h import *
 
 EXPLANATION = (
@@ -116,6 +118,158 @@ def fold_int(idx, fn, e):
     if not isinstance(v, int) or isinstance(v, bool):
         raise AnalysisError("%s in %s is not an integer constant" % (ast.unparse(e), short(fn)))
     return v
+
+
+# ---- truth-table evaluation of small predicate methods (C19.7 / C19.8) -------
+RAISES = "raises"
+ALLOWED = "is_allowed_in_immutable_directory"
+
+
+class _TT(dict):
+    """Truth assignment to leaf expressions; unknown leaves are recorded."""
+
+    def __init__(self, *a):
+        dict.__init__(self, *a)
+        self.missing = []
+
+    def leaf(self, key):
+        if key not in self:
+            if key not in self.missing:
+                self.missing.append(key)
+            return False
+        return self[key]
+
+
+class PredEval:
+    """Evaluates side-effect-free predicate methods (no loops, no parameters) under a truth assignment to their
+    leaf expressions, walking the CFG.  `self.m()` is dispatched on the class under analysis and inlined;
+    `R.is_allowed_in_immutable_directory()` on another object R is taken as `not R.is_mutable()` (every
+    implementation is held to that by C19.7, so the induction is sound); `X is None` is read as `not X`
+    (the attributes compared this way are None-or-truthy)."""
+
+    def __init__(self):
+        self._fn = {}
+
+    def fnorm(self, fn):
+        k = fn.qual
+        if k not in self._fn:
+            self._fn[k] = FlowNorm(fn)
+        return self._fn[k]
+
+    def truth(self, ci, fn, node, e, env, depth):
+        fnm = self.fnorm(fn)
+        e = fnm.resolve(node, e)
+        if isinstance(e, ast.Constant):
+            return bool(e.value)
+        if isinstance(e, ast.BoolOp):
+            is_and = isinstance(e.op, ast.And)
+            for v in e.values:
+                t = self.truth(ci, fn, node, v, env, depth)
+                if t is RAISES:
+                    return RAISES
+                if t != is_and:
+                    return t
+            return is_and
+        if isinstance(e, ast.UnaryOp) and isinstance(e.op, ast.Not):
+            t = self.truth(ci, fn, node, e.operand, env, depth)
+            return RAISES if t is RAISES else (not t)
+        if isinstance(e, ast.IfExp):
+            t = self.truth(ci, fn, node, e.test, env, depth)
+            if t is RAISES:
+                return RAISES
+            return self.truth(ci, fn, node, e.body if t else e.orelse, env, depth)
+        if isinstance(e, ast.Compare) and len(e.ops) == 1 and isinstance(e.ops[0], (ast.Is, ast.IsNot)):
+            sides = [e.left, e.comparators[0]]
+            none = [s for s in sides if isinstance(s, ast.Constant) and s.value is None]
+            rest = [s for s in sides if not (isinstance(s, ast.Constant) and s.value is None)]
+            if len(none) == 1 and len(rest) == 1:
+                t = self.truth(ci, fn, node, rest[0], env, depth)
+                if t is RAISES:
+                    return RAISES
+                return (not t) if isinstance(e.ops[0], ast.Is) else t
+        if isinstance(e, ast.Call) and isinstance(e.func, ast.Name) and e.func.id == "bool" and len(e.args) == 1 \
+                and not e.keywords:
+            return self.truth(ci, fn, node, e.args[0], env, depth)
+        if isinstance(e, ast.Call) and isinstance(e.func, ast.Attribute) and not e.args and not e.keywords:
+            recv = e.func.value
+            if isinstance(recv, ast.Name) and recv.id == "self":
+                m = ci.lookup(e.func.attr)
+                if m is not None and len(m.params) == 1:
+                    if depth <= 0:
+                        raise AnalysisError("predicate %s.%s() recurses too deeply" % (ci.name, e.func.attr))
+                    return self.run(ci, m, env, depth - 1)
+            elif e.func.attr == ALLOWED:
+                twin = ast.Call(func=ast.Attribute(value=recv, attr="is_mutable", ctx=ast.Load()), args=[], keywords=[])
+                return not env.leaf(fnm.norm(node, twin))
+        return env.leaf(fnm.norm(node, e))
+
+    def run(self, ci, fn, env, depth=4):
+        """True / False / RAISES: the outcome of calling the method under `env`."""
+        cfg = fn.cfg()
+        n = cfg.entry
+        for _step in range(400):
+            if n is cfg.exit:
+                return False            # falls off the end: None
+            if n is cfg.raise_exit:
+                return RAISES
+            succ = cfg.successors(n)
+            if n.kind == "test":
+                t = self.truth(ci, fn, n, n.ast, env, depth)
+                if t is RAISES:
+                    return RAISES
+                want = "T" if t else "F"
+                nxt = [d for (d, l) in succ if isinstance(l, tuple) and l[0] == want]
+            elif n.kind in ("entry", "stmt"):
+                a = n.ast
+                if isinstance(a, ast.Return):
+                    return False if a.value is None else self.truth(ci, fn, n, a.value, env, depth)
+                if isinstance(a, ast.Raise):
+                    return RAISES
+                if a is not None and not isinstance(a, (ast.Pass, ast.Expr)) and not (
+                        isinstance(a, ast.Assign) and all(isinstance(t, ast.Name) for t in a.targets)):
+                    raise AnalysisError("%s is not a simple predicate (statement %s)" % (short(fn), src(fn, a)))
+                nxt = [d for (d, l) in succ if l is None]
+            else:
+                raise AnalysisError("%s is not a simple predicate (%s node)" % (short(fn), n.kind))
+            if len(nxt) != 1:
+                raise AnalysisError("%s: cannot follow the control flow of the predicate at %r" % (short(fn), n))
+            n = nxt[0]
+        raise AnalysisError("%s: predicate evaluation does not terminate" % short(fn))
+
+    def rows(self, evals):
+        """All truth assignments over the leaves the evaluators touch -> (leaves, [(assignment, values)])."""
+        leaves = []
+        while True:
+            out, grew = [], False
+            for bits in itertools.product((False, True), repeat=len(leaves)):
+                env = _TT(zip(leaves, bits))
+                vals = [ev(env) for ev in evals]
+                if env.missing:
+                    leaves.extend(k for k in env.missing if k not in leaves)
+                    grew = True
+                    break
+                out.append((dict(env), vals))
+            if not grew:
+                return leaves, out
+            if len(leaves) > 8:
+                raise AnalysisError("predicate depends on more than 8 leaves: %s" % leaves)
+
+
+def implemented_interfaces(ci):
+    """Interface names in @implementer(..) of the class and its bases."""
+    out = set()
+    for c in ci.mro():
+        for d in c.node.decorator_list:
+            if isinstance(d, ast.Call) and call_tail(d) == "implementer":
+                for a in d.args:
+                    t = attr_path(a)
+                    if t:
+                        out.add(t.rsplit(".", 1)[-1])
+    return out
+
+
+def show_row(row):
+    return ", ".join("%s=%s" % (k, row[k]) for k in sorted(row)) or "always"
 
 
 def run(ctx: Context):
@@ -746,3 +900,139 @@ def run(ctx: Context):
             raise
         r.require(ro_p != im_p and not ro_p.startswith(im_p) and not im_p.startswith(ro_p), sp, sp.loc(),
                   "prefixes %r / %r are not prefix-free" % (ro_p, im_p))
+
+    # -- 7./8. the deep-immutable predicate of every node class --------------------
+    pe = PredEval()
+    impls = sorted((ci for ci in idx.classes.values() if ALLOWED in ci.methods and not ci.is_subclass_of("Interface")),
+                   key=lambda c: c.qual)
+    if not impls:
+        raise AnchorVanished("no class implements %s()" % ALLOWED)
+    # the class under analysis: the implementing class and every subclass that inherits the implementation
+    targets = []
+    for ci in impls:
+        fn = ci.methods[ALLOWED]
+        for k in [ci] + sorted(idx.subclasses(ci), key=lambda c: c.qual):
+            if k.lookup(ALLOWED) is fn:
+                targets.append((k, fn))
+
+    def need(k, name):
+        m = k.lookup(name)
+        if m is None:
+            raise AnchorVanished("node class %s has %s() but no %s()" % (k.name, ALLOWED, name))
+        if len(m.params) != 1:
+            raise AnalysisError("%s.%s takes parameters" % (k.name, name))
+        return m
+
+    def kind_of(k, rows, col):
+        vals = {v[col] for (_row, v) in rows}
+        if vals == {RAISES}:
+            return "unknown"
+        if RAISES in vals:
+            raise AnalysisError("%s.is_mutable() raises for some states only" % k.name)
+        return "known"
+
+    def feasible(k, m):
+        """Rows contradicting the declared interface cannot occur (IMutableFileNode: always mutable)."""
+        ifs = implemented_interfaces(k)
+        if "IMutableFileNode" in ifs and m is False:
+            return False
+        if "IImmutableFileNode" in ifs and m is True:
+            return False
+        return True
+
+    with ctx.rule("C19.7", "R5", "every node class answers is_allowed_in_immutable_directory() == not is_mutable() "
+                  "(unknown nodes: == raise_error() passes and no write cap), so that the writer's refusal and the "
+                  "reader's filter both mean deep-immutable", expected=6) as r:
+        reported = set()
+
+        def report(fn, key, msg):
+            if (fn.qual, key) not in reported:
+                reported.add((fn.qual, key))
+                r.violation(fn, fn.loc(), msg)
+        for (k, fn) in targets:
+            if k.methods.get(ALLOWED) is fn:
+                r.site(fn, None, k.name)
+            if len(fn.params) != 1:
+                raise AnalysisError("%s takes parameters" % short(fn))
+            mut = need(k, "is_mutable")
+            ev_a = lambda env, _k=k, _f=fn: pe.run(_k, _f, env)
+            ev_m = lambda env, _k=k, _f=mut: pe.run(_k, _f, env)
+            _lv, rows = pe.rows([ev_a, ev_m])
+            r.count(len(rows))
+            if kind_of(k, rows, 1) == "known":
+                for (row, (a, m)) in rows:
+                    if not feasible(k, m):
+                        continue
+                    if a is RAISES:
+                        report(fn, "raises", "%s.%s() raises when %s" % (k.name, ALLOWED, show_row(row)))
+                    elif a and m:
+                        report(fn, "allowed-mutable", "%s.%s() answers True for a mutable node (%s): the writer stores a "
+                               "child that is not deep-immutable in an immutable directory and the reader "
+                               "lists / silently drops it inconsistently" % (k.name, ALLOWED, show_row(row)))
+                    elif not a and not m:
+                        report(fn, "refused-immutable", "%s.%s() answers False for an immutable node (%s): immutable "
+                               "directories refuse it on write and drop it on read, so it does not round-trip"
+                               % (k.name, ALLOWED, show_row(row)))
+            else:
+                rer = need(k, "raise_error")
+                gwu = need(k, "get_write_uri")
+                ev_e = lambda env, _k=k, _f=rer: pe.run(_k, _f, env)
+                ev_w = lambda env, _k=k, _f=gwu: pe.run(_k, _f, env)
+                _lv, rows = pe.rows([ev_a, ev_e, ev_w])
+                r.count(len(rows))
+                for (row, (a, e, w)) in rows:
+                    if w is RAISES:
+                        raise AnalysisError("%s.get_write_uri() raises" % k.name)
+                    if a is RAISES:
+                        report(fn, "raises", "%s.%s() raises when %s" % (k.name, ALLOWED, show_row(row)))
+                        continue
+                    want = (e is not RAISES) and not w
+                    if a and not want:
+                        report(fn, "allowed-bad", "%s.%s() answers True for an unknown node that %s (%s): it is accepted "
+                               "into / listed from an immutable directory" % (
+                                   k.name, ALLOWED, "holds a write cap" if w else "recorded an error", show_row(row)))
+                    elif want and not a:
+                        report(fn, "refused-good", "%s.%s() answers False for an error-free unknown node without a write "
+                               "cap (%s): alleged-immutable future caps do not round-trip through immutable "
+                               "directories" % (k.name, ALLOWED, show_row(row)))
+
+    with ctx.rule("C19.8", "R5", "is_mutable() of every node class is a constant agreeing with its declared interface, "
+                  "an unconditional refusal (unknown), or exactly the is_mutable() of the object it wraps - never "
+                  "another capability predicate", expected=6) as r:
+        deleg = re.compile(r"^(?!self\.is_mutable\(\)$).+\.is_mutable\(\)$")
+        done = set()
+        for (k, _fn) in targets:
+            mut = need(k, "is_mutable")
+            if (k.qual, mut.qual) in done:
+                continue
+            done.add((k.qual, mut.qual))
+            r.site(mut, None, k.name)
+            lv, rows = pe.rows([lambda env, _k=k, _f=mut: pe.run(_k, _f, env)])
+            r.count(len(rows))
+            if kind_of(k, rows, 0) == "unknown":
+                continue
+            vals = {v[0] for (_row, v) in rows}
+            ifs = implemented_interfaces(k)
+            if len(vals) == 1:
+                (c,) = vals
+                if c and "IImmutableFileNode" in ifs:
+                    r.violation(mut, mut.loc(), "%s provides IImmutableFileNode but is_mutable() is always True: the "
+                                "reader treats such children as mutable and immutable directories lose them" % k.name)
+                if not c and "IMutableFileNode" in ifs:
+                    r.violation(mut, mut.loc(), "%s provides IMutableFileNode but is_mutable() is always False: mutable "
+                                "children pass for deep-immutable" % k.name)
+                continue
+            if any(deleg.match(x) and all(v[0] == row[x] for (row, v) in rows) for x in lv):
+                continue
+            others = [x for x in lv if not deleg.match(x) and any(
+                v[0] != v2[0] for (row, v) in rows for (row2, v2) in rows
+                if row[x] != row2[x] and all(row[y] == row2[y] for y in lv if y != x))]
+            if others and all(re.search(r"\.\w+\(\)$", x) for x in others):
+                r.violation(mut, mut.loc(), "%s.is_mutable() is answered by %s instead of the mutability of the wrapped "
+                            "object: read-only and immutable are conflated, so the directory reader / the immutable "
+                            "refusal misjudge this node" % (k.name, ", ".join(others)))
+            elif not others and any(deleg.match(x) for x in lv):
+                r.violation(mut, mut.loc(), "%s.is_mutable() is not the is_mutable() of the wrapped object (inverted or "
+                            "combined: depends on %s)" % (k.name, ", ".join(lv)))
+            else:
+                raise AnalysisError("cannot decide what %s.is_mutable() depends on (%s)" % (k.name, ", ".join(lv)))
